@@ -82,7 +82,8 @@ struct ScriptedSource {
 };
 
 extern ScriptedSource g_src;
-const randombytes_implementation *scripted_impl();
+// shape: bit 0 = the optional stir callback is absent (NULL), bit 1 = the optional close callback is absent
+const randombytes_implementation *scripted_impl(unsigned shape = 0);
 
 #ifdef SIM_COMMON_IMPL
 ScriptedSource g_src;
@@ -99,9 +100,10 @@ static void ss_buf(void *const buf, const size_t size) {
     g_src.serve((unsigned char *) buf, size);
 }
 static int ss_close(void) { g_src.closes++; return 0; }
-const randombytes_implementation *scripted_impl() {
-    static randombytes_implementation impl = {ss_name, ss_random, ss_stir, nullptr, ss_buf, ss_close};
-    return &impl;
+const randombytes_implementation *scripted_impl(unsigned shape) {
+    static randombytes_implementation impl[4] = {{ss_name, ss_random, ss_stir, nullptr, ss_buf, ss_close}, {ss_name, ss_random, nullptr, nullptr, ss_buf, ss_close},
+                                                 {ss_name, ss_random, ss_stir, nullptr, ss_buf, nullptr}, {ss_name, ss_random, nullptr, nullptr, ss_buf, nullptr}};
+    return &impl[shape & 3];
 }
 #endif
 
